@@ -149,6 +149,11 @@ package parquet
 
 // C02: the chunks a footer lists lie back to back in listing order, the first at byte 4
 //@ pred cEnd(c) := c.FileOffset + c.MetaData.TotalCompressedSize
+// ... and across row groups: a group's first chunk starts where the last chunk of the group listed before it ends
+//@ pred lastC(G) := G.Columns[#G.Columns - 1]
+//@ pred grpAlloc(G, F) := allocated(G) && (#G.Columns >= 1 ==> allocated(G.Columns) && allocated(G.Columns[0]) && allocated(lastC(G)) && ref(G.Columns) != ref(F))
+//@ pred grpSep(G, rgAddr, cols) := G != rgAddr && (#G.Columns >= 1 ==> ref(G.Columns) != ref(cols))
+//@ pred grpAdj(G, H) := #G.Columns >= 1 && #H.Columns >= 1 ==> H.Columns[0].FileOffset == cEnd(lastC(G))
 //@ func (*Metadata).Footer
 //@   requires metaOK(m) && external(w)
 //@   modifies heap("sch.ColumnMetaData"), heap("sch.SchemaElement"), wfault, snk, ser
@@ -161,7 +166,18 @@ package parquet
 //@   invariant wfault == old(wfault) && snkPos == old(snkPos) && snkB == old(snkB) && freshOrNil(fmd.RowGroups) && fmd != nil && freshsince(fmd) && 0 <= rangeindex + 1 && rangeindex + 1 <= #m.rowGroups
 //@   invariant[C06] fmd.NumRows == rowsSum(HA(m.rowGroups), off(m.rowGroups), rangeindex + 1) && #fmd.RowGroups == groupsKept(HA(m.rowGroups), off(m.rowGroups), rangeindex + 1)
 //@   invariant[C02] #fmd.RowGroups == 0 ==> pos == 4
+//@   invariant[C02] forall g in 0..#fmd.RowGroups: grpAlloc(fmd.RowGroups[g], fmd.RowGroups)
+//@   invariant[C02] forall g in 0..#fmd.RowGroups - 1: grpAdj(fmd.RowGroups[g], fmd.RowGroups[g + 1])
+//@   invariant[C02] (ref(fmd.RowGroups) == 0 || allocated(fmd.RowGroups)) && (#fmd.RowGroups >= 1 ==> grpAlloc(fmd.RowGroups[#fmd.RowGroups - 1], fmd.RowGroups))
+//@   invariant[C02] #fmd.RowGroups >= 1 && #fmd.RowGroups[#fmd.RowGroups - 1].Columns >= 1 ==> pos == cEnd(lastC(fmd.RowGroups[#fmd.RowGroups - 1]))
 //@ loop (*Metadata).Footer#2
+//@   invariant[C02] forall g in 0..#fmd.RowGroups: grpAlloc(fmd.RowGroups[g], fmd.RowGroups) && grpSep(fmd.RowGroups[g], addr(rg), rg.Columns)
+//@   invariant[C02] #rg.Columns >= 1 ==> allocated(rg.Columns) && allocated(rg.Columns[0]) && allocated(lastC(rg))
+//@   invariant[C02] (ref(fmd.RowGroups) == 0 || allocated(fmd.RowGroups)) && (ref(rg.Columns) == 0 || ref(fmd.RowGroups) != ref(rg.Columns))
+//@   invariant[C02] #fmd.RowGroups >= 1 ==> grpAlloc(fmd.RowGroups[#fmd.RowGroups - 1], fmd.RowGroups) && grpSep(fmd.RowGroups[#fmd.RowGroups - 1], addr(rg), rg.Columns)
+//@   invariant[C02] forall g in 0..#fmd.RowGroups - 1: grpAdj(fmd.RowGroups[g], fmd.RowGroups[g + 1])
+//@   invariant[C02] #rg.Columns == 0 && #fmd.RowGroups >= 1 && #fmd.RowGroups[#fmd.RowGroups - 1].Columns >= 1 ==> pos == cEnd(lastC(fmd.RowGroups[#fmd.RowGroups - 1]))
+//@   invariant[C02] #rg.Columns >= 1 && #fmd.RowGroups >= 1 && #fmd.RowGroups[#fmd.RowGroups - 1].Columns >= 1 ==> rg.Columns[0].FileOffset == cEnd(lastC(fmd.RowGroups[#fmd.RowGroups - 1]))
 //@   invariant wfault == old(wfault) && snkPos == old(snkPos) && snkB == old(snkB) && freshOrNil(rg.Columns) && freshOrNil(fmd.RowGroups) && fmd != nil && freshsince(fmd)
 //@   invariant[C02] forall t in 0..#rg.Columns: allocated(rg.Columns[t])
 //@   invariant[C02] forall t in 0..#rg.Columns - 1: rg.Columns[t + 1].FileOffset == cEnd(rg.Columns[t])
